@@ -1,0 +1,71 @@
+//go:build verif
+
+// Round 6, area K: the repeatable float flag of nsqd (--e2e-processing-latency-percentile) and StringArray.String. Comment-only file.
+
+package app
+
+// sort.Sort on a FloatArray: only Len / Less / Swap of the argument are called, so nothing but the elements of float64 slices changes (the
+// global entry of clusterinfo.spec lists other element types); documented result for a Less that is a strict weak order (a[i] > a[j] on
+// numbers is one): afterwards no element is Less than its predecessor, i.e. the slice is in DESCENDING order; the length is unchanged.
+// ASSUMED at calls from this package.
+//@ extern[in github.com/nsqio/nsq/internal/app] sort.Sort(data)
+//@   ensures[descending] dyntype(data) == typetag("FloatArray") ==> forall i int, j int :: {unbox(data, "FloatArray")[i], unbox(data, "FloatArray")[j]} 0 <= i && i <= j && j < len(unbox(data, "FloatArray")) ==> unbox(data, "FloatArray")[i] >= unbox(data, "FloatArray")[j]
+//@   modifies elems(float64)
+// log.Fatalf prints and exits the process. Set has an explicit `return nil` behind the call, so the cautious reading "it returns, no modelled
+// state" (std.spec) is kept and the call is only COUNTED: Set's clauses are stated for a call in which no part was refused.
+//@ ghost r6KAppFatals int
+//@ extern[in github.com/nsqio/nsq/internal/app] log.Fatalf(format, v)
+//@   modifies r6KAppFatals
+//@   onreturn r6KAppFatals := r6KAppFatals + 1
+// strconv.ParseFloat / fmt.Sprintf / strings.Join: no modelled state (std.spec).
+
+//@ func (a FloatArray) Len() int
+//@   props C13 C18
+//@   ensures[length] result == len(a)
+//@   modifies
+//@   nochan
+// Less: DESCENDING order (the percentiles are reported from the highest down).
+//@ func (a FloatArray) Less(i int, j int) bool
+//@   props C13 C18
+//@   requires 0 <= i && i < len(a) && 0 <= j && j < len(a)
+//@   ensures[greater-first] result == (a[i] > a[j])
+//@   modifies
+//@   nochan
+// Swap: exactly the two elements are exchanged.
+//@ func (a FloatArray) Swap(i int, j int)
+//@   props C13 C18
+//@   requires 0 <= i && i < len(a) && 0 <= j && j < len(a)
+//@   ensures[exchanged] a[i] == old(a[j]) && a[j] == old(a[i])
+//@   ensures[others-kept] forall k int :: {a[k]} 0 <= k && k < len(a) && k != i && k != j ==> a[k] == old(a[k])
+//@   modifies elems(a)
+//@   nochan
+//@ func (a *FloatArray) Get() interface{}
+//@   props C13 C18
+//@   requires a != nil
+//@   ensures[the-slice] dyntype(result) == typetag("[]float64") && unbox(result, "[]float64") == *a
+//@   modifies
+//@   nochan
+// Set: the comma separated numbers are appended (a part that does not parse is fatal) and the whole list is sorted descending; values
+// given earlier are never dropped (the list only grows).
+//@ func (a *FloatArray) Set(param string) error
+//@   props C13 C18
+//@   requires a != nil
+//@   ensures[ok] result == nil
+//@   ensures[only-grows] len(*a) >= old(len(*a))
+//@   ensures[at-least-one-value-added] r6KAppFatals == old(r6KAppFatals) ==> len(*a) >= old(len(*a)) + 1
+//@   ensures[sorted-descending] r6KAppFatals == old(r6KAppFatals) ==> forall i int, j int :: {(*a)[i], (*a)[j]} 0 <= i && i <= j && j < len(*a) ==> (*a)[i] >= (*a)[j]
+//@   modifies *a, elems(float64), r6KAppFatals
+//@   nochan
+//@   loop 0
+//@     invariant[one-value-per-part] len(*a) == old(len(*a)) + rangeindex + 1 && r6KAppFatals == old(r6KAppFatals)
+//@ func (a *FloatArray) String() string
+//@   props C13 C18
+//@   requires a != nil
+//   (elems(string): the texts are appended to a local slice inside a loop - the engine does not see that the backing array is the function's own)
+//@   modifies elems(string)
+//@   nochan
+//@ func (a *StringArray) String() string
+//@   props C17 C20 C19
+//@   requires a != nil
+//@   modifies
+//@   nochan
